@@ -16,6 +16,35 @@ pub trait NativeBand: HS {
     fn native_band_check(_st: &FitStatistics<StubModel<Self>>, _si: &StatIn<Self>, _dof: usize, _out: &mut Out<Self>) {}
 }
 impl NativeBand for verif_sym::Sym {}
+impl NativeBand for f32 {
+    fn native_band_check(st: &FitStatistics<StubModel<f32>>, si: &StatIn<f32>, dof: usize, out: &mut Out<f32>) {
+        let (n, m, p) = (si.n, si.m, si.p);
+        let cov = st.covariance_matrix();
+        if cov.shape() != (m + p, m + p) {
+            return;
+        }
+        for prob in [0.5f32, 0.683, 0.95, 0.999] {
+            let r = st.confidence_band_radius(prob);
+            out.fact("C14.native.band_len", r.len() == n, format!("{}", r.len()));
+            if r.len() != n {
+                continue;
+            }
+            let t = distrs::StudentsT::ppf((prob as f64 + 1.0) / 2.0, dof as f64);
+            for i in 0..n {
+                let j: Vec<f64> = (0..m + p).map(|col| if col < m { si.phi[(i, col)] as f64 } else { (0..m).map(|b| si.d[col - m][(i, b)] as f64 * si.c[b] as f64).sum() }).collect();
+                let mut q = 0.0f64;
+                for a in 0..m + p {
+                    for b in 0..m + p {
+                        q += j[a] * cov[(a, b)] as f64 * j[b];
+                    }
+                }
+                let want = t * q.max(0.0).sqrt();
+                let ok = (r[i] as f64 - want).abs() <= 2e-3 * (1.0 + want.abs()) || (!want.is_finite() && !r[i].is_finite());
+                out.fact("C14.native.band_radius", ok, format!("f32: p={prob}, dof={dof}, sample {i}: radius {} but t((1+p)/2; N-M-P)*sqrt(j^T Cov j) = {want}", r[i]));
+            }
+        }
+    }
+}
 impl NativeBand for f64 {
     fn native_band_check(st: &FitStatistics<StubModel<f64>>, si: &StatIn<f64>, dof: usize, out: &mut Out<f64>) {
         let (n, m, p) = (si.n, si.m, si.p);
